@@ -110,6 +110,9 @@ pub fn parallel_parse(
     let collector_thread = thread::spawn(move || {
         let mut crate_parsed_data: BTreeMap<CrateName, ParsedData> = BTreeMap::new();
 
+        #[cfg(typeshare_verif)]
+        let rx = verif_hooks::reorder(rx);
+
         for result in rx {
             let parsed_data = result?;
             let crate_name = parsed_data.crate_name.clone();
@@ -144,4 +147,53 @@ pub fn parallel_parse(
 
     drop(tx);
     collector_thread.join().unwrap()
+}
+
+/// Hook for the external verification harness (only with `--cfg typeshare_verif`): lets a test
+/// choose the order in which per-file parse results reach the collector.
+#[cfg(typeshare_verif)]
+mod verif_hooks {
+    use crossbeam::channel::Receiver;
+    use typeshare_core::parser::ParsedData;
+
+    type Item = anyhow::Result<ParsedData>;
+
+    /// Smallest original item name in a file's parse result: a scheduling-independent key.
+    fn key(item: &Item) -> String {
+        match item {
+            Err(_) => String::new(),
+            Ok(pd) => pd
+                .structs
+                .iter()
+                .map(|s| &s.id.original)
+                .chain(pd.enums.iter().map(|e| &e.shared().id.original))
+                .chain(pd.aliases.iter().map(|a| &a.id.original))
+                .chain(pd.consts.iter().map(|c| &c.id.original))
+                .min()
+                .cloned()
+                .unwrap_or_default(),
+        }
+    }
+
+    /// Without `TYPESHARE_VERIF_ORDER` results are streamed exactly as before. With it, all
+    /// results are buffered, put into key order, and then delivered in the given permutation
+    /// (comma separated indices into the key-sorted list; missing indices follow in key order).
+    pub fn reorder(rx: Receiver<Item>) -> Box<dyn Iterator<Item = Item>> {
+        let Ok(order) = std::env::var("TYPESHARE_VERIF_ORDER") else {
+            return Box::new(rx.into_iter());
+        };
+        let mut items: Vec<Option<Item>> = {
+            let mut v: Vec<Item> = rx.into_iter().collect();
+            v.sort_by_key(key);
+            v.into_iter().map(Some).collect()
+        };
+        let mut out = Vec::with_capacity(items.len());
+        for idx in order.split(',').filter_map(|s| s.trim().parse::<usize>().ok()) {
+            if let Some(item) = items.get_mut(idx).and_then(Option::take) {
+                out.push(item);
+            }
+        }
+        out.extend(items.into_iter().flatten());
+        Box::new(out.into_iter())
+    }
 }
